@@ -443,7 +443,22 @@ func sameValue(a, b ssa.Value) bool {
 		return true
 	}
 	pa, pb := pathOf(a), pathOf(b)
-	return pa != "" && pa == pb && !strings.HasPrefix(pa, "fresh:")
+	if pa != "" && pa == pb && !strings.HasPrefix(pa, "fresh:") {
+		return true
+	}
+	// two reads of the same field through the very same pointer value (a call result held in a register has no path)
+	switch x := a.(type) {
+	case *ssa.UnOp:
+		y, ok := b.(*ssa.UnOp)
+		return ok && x.Op == token.MUL && y.Op == token.MUL && sameValue(x.X, y.X)
+	case *ssa.FieldAddr:
+		y, ok := b.(*ssa.FieldAddr)
+		return ok && x.Field == y.Field && types.Identical(x.X.Type(), y.X.Type()) && sameValue(x.X, y.X)
+	case *ssa.Field:
+		y, ok := b.(*ssa.Field)
+		return ok && x.Field == y.Field && types.Identical(x.X.Type(), y.X.Type()) && sameValue(x.X, y.X)
+	}
+	return false
 }
 
 // derefAll strips ChangeType/MakeInterface/Convert wrappers.
